@@ -3,12 +3,12 @@
 import json, os
 HERE = os.path.dirname(os.path.dirname(os.path.abspath(__file__)))
 B = []
-def cfg(nidl=False, base=True, sw=False, regw=False, unix=False, life=0, nide=False, lstate=False, so=False, twoh=False): return dict(nidl=nidl, nide=nide, lstate=lstate, so=so, twoh=twoh, base=base, sw=sw, regw=regw, unix=unix, lifeSec=life, certKeys=["k1", "k2", "k3"])
+def cfg(nidl=False, base=True, sw=False, regw=False, unix=False, life=0, nide=False, lstate=False, so=False, twoh=False, lskew=False): return dict(nidl=nidl, nide=nide, lstate=lstate, lskew=lskew, so=so, twoh=twoh, base=base, sw=sw, regw=regw, unix=unix, lifeSec=life, certKeys=["k1", "k2", "k3"])
 def NN(k): return dict(op="NewNode", k=k)
 def AP(k): return dict(op="AuthorizePending", k=k)
 def RG(k, kind, ex="none"): return dict(op="Rogue", k=k, kind=kind, ex=ex)
 RW = dict(op="RotateWait")
-ROGUES = ["foreign", "staleNonce", "noNonce", "wrongEku", "selfSigned", "foreignNoAlpn", "foreignExtraAlpn", "nextRootNotYetValid", "staleNonceExtraCert"]
+ROGUES = ["foreign", "staleNonce", "noNonce", "wrongEku", "selfSigned", "foreignNoAlpn", "foreignExtraAlpn", "nextRootNotYetValid", "staleNonceExtraCert", "otherDeployment"]
 def E(k): return dict(op="Enroll", k=k)
 def R(k): return dict(op="Remove", k=k)
 RE = dict(op="Reinit")
@@ -24,7 +24,7 @@ for nidl in (False, True):
     beh("f02_removed_skip" + x, ["C02", "C16"], cfg(nidl=nidl), [E("k1"), E("k2"), C("k1"), C("k1", stt="ok"), C("k1", skip=True, stt="forged"), R("k1"), C("k1"), C("k1", skip=True),
                                                              C("k1", skip=True, nsig="kx"), C("k1", skip=True, cn=True, stt="unsigned"), C("k2", nid="own"), C("k2", ck="k2", nid="other"),
                                                              C("k1", ck="k2", nsig="k2", nid="other"), C("k2", ck="k1"), C("k1", ck="k2", nsig="k2")])
-    beh("f02_chains" + x, ["C02"], cfg(nidl=nidl, sw=True), [E("k1"), C("k1", chain="foreign"), C("k1", chain="self"), C("k1", chain="b1"), C("k1", priv=False), C("k1", nsig="kx"),
+    beh("f02_chains" + x, ["C02"], cfg(nidl=nidl, sw=True), [E("k1"), C("k1", chain="foreign"), C("k1", chain="leadOwn"), C("k1", chain="self"), C("k1", chain="b1"), C("k1", priv=False), C("k1", nsig="kx"),
                                                               C("k1", nsig="none"), C("k1", pref="garbage"), C("k1", pref="next"), C("k1", pref="none"), RE, C("k1"), D("k1"),
                                                               E("k2"), C("k2"), C("k2", kind="fetch"), C("k2", kind="base")])
 # node ids nobody is registered under (answered with not-found or with an empty set), by a removed node holding a still valid certificate
@@ -70,6 +70,8 @@ for unix in (False, True):
     x = "u" if unix else ""
     beh("f07_unreg" + x, ["C07"], cfg(unix=unix, sw=unix), [NN("k1"), D("k1"), D("k1", "one", "nested"), AP("k1"), D("k1", "one", "nested"), D("k1"), NN("k2"), D("k2"), E("k3"), D("k3", "many")])
     beh("f07_rogues" + x, ["C07"], cfg(unix=unix), [E("k1")] + [RG("k1", k, ex) for k in ROGUES for ex in ("none", "many")] + [D("k1", "many", "large")])
+# the listener's options carry a zero not-after clock skew: registered and newly authorised nodes connect all the same
+beh("f07_lskew", ["C07", "C02"], cfg(lskew=True), [E("k1"), D("k1"), D("k1", "one", "nested"), C("k1"), NN("k2"), D("k2"), AP("k2"), D("k2"), D("k2", "many"), RG("k1", "foreign")])
 # real time: the server rotates once the node's second chain is valid; the node must still connect (through its second chain)
 for i in range(3):
     beh("f07_rotate%d" % i, ["C07", "C09"], cfg(life=8, sw=(i == 1)), [E("k1"), D("k1"), RW] + [D("k1", ex, st) for ex, st in [("none", "none"), ("one", "nested"), ("many", "none")] * 6] + [RG("k1", "foreign"), RG("k1", "staleNonce")])
